@@ -65,6 +65,18 @@ def exc_signature(exc):
     return (type(exc).__name__, site.name, (site.line or '').strip())
 
 
+def guarded(f, ctx, *a):
+    """Call a monitor hook; a crash of the monitor after it already reported a violation on this
+    job is a consequence of the implementation misbehaving, not a harness failure."""
+    try:
+        return f(*a)
+    except Exception:
+        if ctx.violations:
+            ctx.counters['monitor_crash_after_violation'] += 1
+            return None
+        raise
+
+
 class Node:
     __slots__ = ('st', 'ms', 'nid', 'depth', 'devs')
 
@@ -101,7 +113,7 @@ def explore(cfg, monitors=(), menu=None, menu_opts=None, dev_bound=None,
         for m in monitors:
             f = getattr(m, 'on_update', None)
             if f:
-                f(st, op, ctx)
+                guarded(f, ctx, st, op, ctx)
 
     with env.observe(upd):
         ctx.path = ()
@@ -145,7 +157,7 @@ def explore(cfg, monitors=(), menu=None, menu_opts=None, dev_bound=None,
             for m, x in zip(monitors, node.ms):
                 f = getattr(m, 'on_state', None)
                 if f:
-                    f(st, x, evs, ctx)
+                    guarded(f, ctx, st, x, evs, ctx)
             if not evs:
                 stats['terminals'] += 1
                 if st.status:
@@ -190,7 +202,7 @@ def explore(cfg, monitors=(), menu=None, menu_opts=None, dev_bound=None,
                 ms2 = []
                 for m, x in zip(monitors, node.ms):
                     f = getattr(m, 'on_edge', None)
-                    ms2.append(f(st, x, ev, c, rec, ctx) if f else x)
+                    ms2.append(guarded(f, ctx, st, x, ev, c, rec, ctx) if f else x)
                 ms2 = tuple(ms2)
                 devs = node.devs + cost
                 if merge:
